@@ -8,15 +8,8 @@
 (***************************************************************************)
 EXTENDS Fzf
 
-AllNone(b) == \A f \in 1..12 : b.outs[f][1] = -1
-
-\* KF-C01-ascii-hay-codepoint-needle: an ASCII-representation haystack combined with a needle held as code
-\* points makes every entry point return None, even when the needle contains only ASCII characters
-\* (matcher/src/lib.rs, the `(Utf32Str::Ascii(_), Utf32Str::Unicode(_)) => None` arms).
-KfAsciiHayCodepointNeedle(r, x) ==
-  LET b == r.blocks[x[3]] IN
-  /\ x[1] \in {"C01", "C04", "C05"}
-  /\ b.rh = "A" /\ b.rn = "U" /\ AllNone(b)
+\* (KF-C01-ascii-hay-codepoint-needle - every entry point returned None for an ASCII-representation haystack and an
+\* all-ASCII needle held as code points - was repaired in the code; a recurrence is a violation.)
 
 \* KF-C04-prefix-bonus-tips-matrix: the matrix keeps one best predecessor per cell although the consecutive
 \* bonus depends on how the chunk started, so the plain run can report less than an alignment it has seen
@@ -43,7 +36,6 @@ KfPrefixBonusTipsMatrix(r, x) ==
      /\ on[1] >= plain /\ on[1] <= plain + MaxPrefixBonus
 
 KnownId(r, x) ==
-  IF KfAsciiHayCodepointNeedle(r, x) THEN "KF-C01-ascii-hay-codepoint-needle"
-  ELSE IF KfPrefixBonusTipsMatrix(r, x) THEN "KF-C04-prefix-bonus-tips-matrix"
+  IF KfPrefixBonusTipsMatrix(r, x) THEN "KF-C04-prefix-bonus-tips-matrix"
   ELSE ""
 =============================================================================
